@@ -63,6 +63,9 @@ pub struct SimRng {
     pub delivered: Vec<u8>,
     /// the stream ran dry: harness error, never a property verdict
     pub exhausted: bool,
+    /// code carried by the errors this device reports: 0 = a custom code, otherwise an OS errno
+    /// (a device that wraps the OS reports EINTR / EAGAIN / EIO like that)
+    pub err_code: u32,
     req: usize,
 }
 
@@ -70,7 +73,7 @@ pub const INFALLIBLE_PANIC: &str = "SimRng: infallible RNG method called on a fa
 
 impl SimRng {
     pub fn new(stream: Vec<u8>, plan: Vec<(usize, RngFault)>) -> Self {
-        SimRng { stream, pos: 0, plan, events: Vec::new(), delivered: Vec::new(), exhausted: false, req: 0 }
+        SimRng { stream, pos: 0, plan, events: Vec::new(), delivered: Vec::new(), exhausted: false, err_code: 0, req: 0 }
     }
 
     pub fn healthy(stream: Vec<u8>) -> Self { Self::new(stream, Vec::new()) }
@@ -95,7 +98,10 @@ impl SimRng {
         }
     }
 
-    fn err() -> RngError { RngError::from(NonZeroU32::new(RngError::CUSTOM_START + 204).unwrap()) }
+    fn err(&self) -> RngError {
+        let code = if self.err_code == 0 { RngError::CUSTOM_START + 204 } else { self.err_code };
+        RngError::from(NonZeroU32::new(code).unwrap())
+    }
 }
 
 impl RngCore for SimRng {
@@ -134,7 +140,7 @@ impl RngCore for SimRng {
                 let (head, _) = dest.split_at_mut(n);
                 self.take(head);
                 self.events.push(RngEvent { method: "try_fill_bytes", len: dest.len(), ok: false });
-                Err(Self::err())
+                Err(self.err())
             }
         }
     }
